@@ -156,9 +156,15 @@ def run(chk, only_solver_agreement=False):
                                     pm, pv = gp.predict(jnp.asarray(y), None if xt is None else Xt, kernel=k2, include_mean=inc, return_var=True)
                                     pm2, pc = gp.predict(jnp.asarray(y), None if xt is None else Xt, kernel=k2, include_mean=inc, return_cov=True)
                                     pm3 = gp.predict(jnp.asarray(y), None if xt is None else Xt, kernel=k2, include_mean=inc)
+                                    # both flags: the documented rule is that return_var takes precedence (a (mean, variance) pair comes back)
+                                    pm4, pv4 = gp.predict(jnp.asarray(y), None if xt is None else Xt, kernel=k2, include_mean=inc, return_var=True, return_cov=True)
                                     for op, got, want in [("predict.mean", pm, want_mean), ("predict.var", pv, np.diag(want_cov)),
-                                                          ("predict.cov", pc, want_cov), ("predict.mean2", pm2, want_mean), ("predict.mean3", pm3, want_mean)]:
-                                        ok, dv = close(np.asarray(got), want, 1e-8)
+                                                          ("predict.cov", pc, want_cov), ("predict.mean2", pm2, want_mean), ("predict.mean3", pm3, want_mean),
+                                                          ("predict(return_var, return_cov).mean", pm4, want_mean),
+                                                          ("predict(return_var, return_cov).second = variance", pv4, np.diag(want_cov))]:
+                                        ok = np.shape(got) == np.shape(want)
+                                        if ok:
+                                            ok, dv = close(np.asarray(got), want, 1e-8)
                                         if not ok:
                                             oracle_bad.append(dict(info, op=op, expected=np.asarray(want).tolist(), observed=np.asarray(got).tolist()))
                                 # ---- model expression for this configuration
